@@ -179,7 +179,7 @@ pub fn c04_entry<const N: usize>() {
     tok::reset();
     let (mut m, md) = any_map::<N>();
     let (k, which) = (vf::any_u8(), vf::any_u8());
-    vf::assume(which < 6);
+    vf::assume(which < 7);
     vf::assume(md.n < N || md.has(k));
     arm();
     let panicked = {
@@ -192,6 +192,7 @@ pub fn c04_entry<const N: usize>() {
                 2 => { let _ = mm.entry(kt).or_insert_with_key(|kk| { tok::fault_point(); Tok::new(kk.key()) }); }
                 3 => { let _ = mm.entry(kt).or_default(); }
                 4 => { let _ = mm.entry(kt).and_modify(|v| { tok::fault_point(); v.set_tag(5); }).or_insert(Tok::new(3)); }
+                6 => { if let Entry::Occupied(o) = mm.entry(kt) { drop(o.remove()); } }
                 _ => {
                     match mm.entry(kt) {
                         Entry::Occupied(mut o) => { drop(o.insert(Tok::new(4))); if o.get().tag() == 0 { drop(o.remove_entry()); } }
@@ -399,6 +400,29 @@ pub fn c04_drops<const N: usize>() {
     let _ = keep_map;
     done(panicked);
 }
+/// the same for sets: Set::drop, SetIntoIter and SetDrain with a panicking element destructor
+pub fn c04_set_drops<const N: usize>() {
+    tok::reset();
+    let (mut s, _md) = any_set::<N>();
+    let (which, j) = (vf::any_u8(), vf::any_usize());
+    vf::assume(which < 3);
+    arm();
+    let panicked = match which {
+        0 => vf::catch(move || { drop(core::mem::replace(&mut s, Set::new())); }),
+        1 => vf::catch(move || { let mut it = core::mem::replace(&mut s, Set::new()).into_iter(); let mut i = 0; while i < N { if i < j { drop(it.next()); } i += 1; } vf::check(it.len() <= N, 601); drop(it); }),
+        _ => {
+            let ss = &mut s;
+            let p = vf::catch(move || { let mut d = ss.drain(); let mut i = 0; while i < N { if i < j { drop(d.next()); } i += 1; } drop(d); });
+            tok::disarm();
+            vf::check(s.len() == 0, 612);
+            survivor_set(&mut s);
+            drop(s);
+            p
+        }
+    };
+    done(panicked);
+}
+
 /// moves the map out of a `&mut` captured by a `move` closure (the closure then owns it)
 fn m_take<const N: usize>(m: &mut Map<Tok, Tok, N>) -> Map<Tok, Tok, N> { core::mem::replace(m, Map::new()) }
 
@@ -465,6 +489,7 @@ harnesses! {
     c04_set_ops: [0] [1] [2] [3];
     c04_set_algebra: [1, 1] [2, 2] [3, 2];
     c04_drops: [1] [2] [3];
+    c04_set_drops: [1] [2] [3];
     c04_disjoint: [1] [2] [3];
     c05_panics: [0] [1] [2] [3];
     @deep
@@ -482,6 +507,7 @@ harnesses! {
     c04_set_ops: [4] [5];
     c04_set_algebra: [3, 3] [4, 2];
     c04_drops: [4] [5];
+    c04_set_drops: [4];
     c04_disjoint: [4] [5];
     c05_panics: [4] [5];
 }
